@@ -375,6 +375,10 @@ def task_synth(task):
                         for pol in getattr(a, "polynomials", []):
                             free |= set(sp.sympify(str(pol)).free_symbols)
                     free = {s for s in free if str(s) not in {str(v) for v in sprog.variables}}
+                    # the initial values of the retained variables enter the joint system (v0 when v is not initialised)
+                    for v in retained:
+                        for s0 in sp.sympify(str(cx.rb.get_initial_value(symengine.sympify(v)))).free_symbols:
+                            free.add(s0)
                     pair = entry["pairs"][i] if entry["pairs"] and i < len(entry["pairs"]) else None
                     for pi, pt in enumerate(points):
                         inst = {"point": pt}
